@@ -1416,6 +1416,21 @@ def unexecuted_packages(tr, case):
 
 
 def c02_requests(tr, out, exchange="Betfair", exec_class="Simulated"):
+    # a request that a client control refused (the control raised, observed at the control itself) is a refused request: it must not
+    # come back accepted
+    reqs_by_o = collections.defaultdict(list)
+    for r in tr.requests:
+        reqs_by_o[(r["o"], r["kind"])].append(r)
+    for c in getattr(tr, "mtc", ()):
+        if not c.get("raised"):
+            continue
+        cands = [r for r in reqs_by_o.get((c["o"], c["kind"]), ()) if r["seq"] < c["seq"]]
+        if not cands:
+            continue
+        r = cands[-1]
+        out.rule("control-refusal")
+        if r.get("result") and "exc" not in r and not r.get("force"):
+            out.v("request-accepted-although-a-client-control-refused-it", {"kind": r["kind"], "exec": exec_class}, request=_rq(r), control=dict(c, now=str(c.get("now"))))
     accepted = collections.Counter()
     req_order = collections.defaultdict(list)  # (tx, kind, mv) -> [okey...] in request order
     for r in tr.requests:
